@@ -15,16 +15,34 @@ the graph objects of the case after the history: {(graph index, node_attrs) -> c
 """
 import itertools
 
-from ..coqrun import cN, cnat, cbool, clist, copt
+from ..coqrun import cbool, clist, copt
 from ..tok import S
 from ..gen import graphs as G
 
 PID = "C07"
+# Elaborating the case literals dominates the model stage (~0.3 ms per query, numerals are the expensive tokens): small numbers are
+# written as constants defined once per shard, and the (label names, edge attribute) pairs of the boolean subgraph queries are
+# let-bound once per case.  Plumbing only: the evaluated term is the same [run ...] / [run_h ...].
 COQ_HEADER = ("From Coq Require Import List NArith.\nFrom SK Require Import lib.Tok lib.LGraph model.C07_Model.\n"
-              "Import ListNotations.\n")
+              "Import ListNotations.\n"
+              + "".join("Definition n%d := %d%%nat.\n" % (i, i) for i in range(10))
+              + "".join("Definition k%d := %d%%N.\n" % (i, i) for i in range(200))
+              + "Definition QS (gm : bool) (c p : nat) (f ind : bool) (z : list (N * N) * option N) : query := "
+                "QSub gm c p f ind (fst z) (snd z).\n")
 SHARD = 120
-IMPL_TIMEOUT = 900
-COQ_TIMEOUT = 900
+# quick tier: both stages must end with a verdict inside the 900 s limit of the evaluation sandbox (thorough: x4 by main.py)
+IMPL_TIMEOUT = 300
+COQ_TIMEOUT = 500
+
+
+def cN(n):
+    assert isinstance(n, int) and n >= 0
+    return "k%d" % n if n < 200 else "%d%%N" % n
+
+
+def cnat(n):
+    assert 0 <= n < 5000
+    return "n%d" % n if n < 10 else "%d%%nat" % n
 
 RULE = ("histories of queries (isomorphic / get_mappings / _pre_check / boolean subgraph tests of both modules / graph_isomorphism) by "
         "several engines with different attribute selections and filter flags sharing graph objects; all pairs of iso classes of "
@@ -204,6 +222,13 @@ def _spoil(r):
         r["spoiled"] = -1
 
 
+def _graph_sig(g):
+    """Everything a caller can see of a graph object: node order, every node / edge attribute (scalars), graph attributes."""
+    return ([(n, tuple(a.items())) for n, a in g.nodes(data=True)],
+            sorted(((u, v) if repr(u) <= repr(v) else (v, u), tuple(sorted(a.items(), key=repr))) for u, v, a in g.edges(data=True)),
+            tuple(g.graph.items()), type(g).__name__)
+
+
 def _n_objects(case):
     return case.get("objects", len(case["graphs"]))
 
@@ -213,14 +238,18 @@ def impl(case):
     gs = [G.to_nx(g) for g in case["graphs"][:_n_objects(case)]]
     engs = [_engine(s) for s in case["engines"]]
     ans = []
+    sigs = [_graph_sig(g) for g in gs]
+    untouched = True
     for q in case["queries"]:
         if q[0] == "edit":
             _edit_in_place(gs[q[1]], case["graphs"][q[2]])
+            sigs[q[1]] = _graph_sig(gs[q[1]])
             continue
         r = _run_query(q, gs, engs, case["engines"])
         ans.append(_obs(q, r, gs, case["engines"]))
         _spoil(r)
-    return ans + [_cache_obs(case, gs)]
+        untouched = untouched and all(_graph_sig(g) == sg for g, sg in zip(gs, sigs))
+    return ans + [_cache_obs(case, gs), untouched]
 
 
 # ------------------------------------------------------------------ model encoder
@@ -286,6 +315,7 @@ def coq_case(case):
         es = clist(["(Eng %s %s %s %s)" % (clist([cN(_key(k, dyn)) for k in s["na"]]), clist([cN(_key(k, dyn)) for k in s["ea"]]),
                                              cbool(s["wl"]), copt(None if s["mm"] is None else cN(s["mm"]))) for s in case["engines"]])
         qs = []
+        shared = []           # distinct (names, edge attribute) literals of the case, let-bound as z0, z1, ...
         edits = any(q[0] == "edit" for q in case["queries"])
         wrap = (lambda t: "(HQ %s)" % t) if edits else (lambda t: t)
         for q in case["queries"]:
@@ -306,8 +336,11 @@ def coq_case(case):
                         nml.append("(%s, %s)" % (cN(0), cN(d)))
                     else:
                         nml.append("(%s, %s)" % (cN(_key(a, dyn)), cN(codes(d))))
-                qs.append(wrap("(QSub %s %s %s %s %s %s %s)" % (cbool(variant.startswith("gm")), cnat(c), cnat(p), cbool(filt), cbool(ctype == "induced"),
-                                                                clist(nml), copt(None if not eattr else cN(_key(eattr, dyn))))))
+                z = "(%s, %s)" % (clist(nml), copt(None if not eattr else cN(_key(eattr, dyn))))
+                if z not in shared:
+                    shared.append(z)
+                qs.append(wrap("(QS %s %s %s %s %s z%d)" % (cbool(variant.startswith("gm")), cnat(c), cnat(p), cbool(filt), cbool(ctype == "induced"),
+                                                            shared.index(z))))
             elif k == "giso":
                 qs.append(wrap("(QGiso %s %s %s %s %s)" % (cnat(q[1]), cnat(q[2]), cN(codes("*")), cN(codes(0)), cN(codes(1)))))
             elif k == "giso0":
@@ -321,11 +354,12 @@ def coq_case(case):
     for g in case["graphs"]:
         if any(u == v for u, v, _ in g["edges"]):
             return None
+    lets = "".join("let z%d : list (N * N) * option N := %s in " % (i, z) for i, z in enumerate(shared))
     if edits:
-        return "run_h %s %s %s %s" % (gs, cnat(_n_objects(case)), es, clist(qs))
+        return "%srun_h %s %s %s %s" % (lets, gs, cnat(_n_objects(case)), es, clist(qs))
     if _n_objects(case) != len(case["graphs"]):
         return None
-    return "run %s %s %s" % (gs, es, clist(qs))
+    return "%srun %s %s %s" % (lets, gs, es, clist(qs))
 
 
 # ------------------------------------------------------------------ independent property oracle
@@ -429,6 +463,12 @@ def oracle(case):
         _spoil(got_raw)                           # the caller edits what it was handed; later answers must not care
         tag = "query %d %r" % (t, q)
         k = q[0]
+        for i, g in enumerate(gs):                # no query may modify its inputs (or any other graph object of the history)
+            if _graph_sig(g) != _graph_sig(fresh_graph(i)):
+                bad("inputs-unmodified", "%s: graph object %d was modified by the call: now %r, expected %r"
+                    % (tag, i, _graph_sig(g)[:2], _graph_sig(fresh_graph(i))[:2]))
+                _edit_in_place(g, case["graphs"][cur[i]])      # restore, so that the following steps are judged on their own
+                break
         if k in ("iso", "maps", "pre"):
             spec = specs[q[1]]
             if spec["wl"]:
@@ -635,7 +675,7 @@ def _engines(rng):
     return es
 
 
-def _battery(rng, pairs, n_eng, subs=True, nosubs=(), alt=True):
+def _battery(rng, pairs, n_eng, subs=True, nosubs=(), alt=True, nfixed=8):
     """A shuffled battery of queries over the given ordered graph-index pairs (no boolean-subgraph queries for pairs in nosubs)."""
     qs = []
     all_subs = subs
@@ -647,10 +687,9 @@ def _battery(rng, pairs, n_eng, subs=True, nosubs=(), alt=True):
             if rng.random() < 0.5:
                 qs.append(["pre", e, i, j])
         if subs:
-            for variant in ("sm", "gm"):
-                for filt in (False, True):
-                    for ctype in ("induced", "mono"):
-                        qs.append(["sub", variant, j, i, filt, ctype, NAMES_DEF, "order"])
+            fixed = [["sub", variant, j, i, filt, ctype, NAMES_DEF, "order"]
+                     for variant in ("sm", "gm") for filt in (False, True) for ctype in ("induced", "mono")]
+            qs += fixed if nfixed >= 8 else rng.sample(fixed, nfixed)
             if rng.random() < 0.3:
                 qs.append(["sub", "is", j, i, rng.random() < 0.5, rng.choice(["induced", "mono"]), [["element", "*"]], "order"])
             if rng.random() < 0.3:
@@ -847,7 +886,7 @@ def gen_cases(tier, rng):
         ga, gb = _present(a, rng), _present(b, rng)
         gs = [ga, gb, _present(a, rng, extra=9)]
         es = _engines(rng)
-        cases.append(dict(kind="pairs", graphs=gs, engines=es, queries=_battery(rng, [(0, 1), (1, 0), (0, 2)], len(es), nosubs=((0, 2),))))
+        cases.append(dict(kind="pairs", graphs=gs, engines=es, queries=_battery(rng, [(0, 1), (1, 0), (0, 2)], len(es), nosubs=((0, 2),), nfixed=5)))
     # ---- hcount alphabet: ordered pairs
     hsmall = wh[1] + wh[2]
     hp = [(a, b) for a in hsmall for b in hsmall]
